@@ -16,7 +16,7 @@ Reader(d) == IF d = "i2h" THEN "H" ELSE "I"
 
 JudgePP(e) ==
   LET failed == e.fail # "none" /\ ~(e.fail = "cut" /\ e.cutAt >= e.total)   \* a cut beyond the end is no cut
-      readFailure == e.fail \in {"cut", "auth", "nodecap", "usercap", "label"}
+      readFailure == e.fail \in {"cut", "auth", "nodecap", "usercap", "label", "busy"}
       readerChanged == IF Reader(e.dir) = "H" THEN e.hChanged ELSE e.iChanged IN
   \* a side whose inbound message was cut, unauthentic, oversized, vetoed, version-incompatible or
   \* mislabeled changes nothing
@@ -30,6 +30,10 @@ JudgePP(e) ==
   \* the host lists the joiner as soon as its handler is done
   /\ Report("VERDICT", "C09_JoinMutual", e,
             (~failed) => (e.joinErr = "" /\ e.iListsH /\ e.iListsH2 /\ ~e.iListsH3 /\ e.hListsI))
+  \* whenever Join reports the host as joined, the host lists the joiner once its handler is done - unless the
+  \* host's own merge was vetoed or found the versions incompatible (it has replied by then)
+  /\ Report("VERDICT", "C09_JoinMutualAlways", e,
+            (e.join /\ e.joinErr = "" /\ e.fail \notin {"veto", "versions", "nodecap", "usercap"}) => e.hListsI)
   /\ Report("VERDICT", "C09_Listed", e, (e.joinErr = "" /\ e.fail \notin {"nodecap", "usercap"}) => e.iListsH)
   \* conformance: the host merges after replying, so a failure of the reply direction does not undo its merge
   /\ Report("DRIFT", "host-merge", e, (failed /\ e.dir = "h2i" /\ e.fail \notin {"nodecap", "usercap", "versions"}) => e.hChanged)
